@@ -190,7 +190,7 @@ package types
 //@ func (EntityGetter) Get
 //@   pure
 
-//@ sweep C10 entity_uid.go pattern.go
+//@ sweep C10 entity_uid.go pattern.go json.go set.go record.go entity.go entity_map.go boolean.go long.go string.go decimal.go duration.go datetime.go ipaddr.go value.go wellformed
 // NewPattern panics on components of a wrong Go type by documented design
 // (programmer API, not a decoder).
 //@ func NewPattern
@@ -373,3 +373,21 @@ package types
 //@   pure
 //@   trusted
 //@   results r
+
+// The value decoder (explicit __extn / __entity escapes, arrays, objects, scalars): no panic
+// for any byte string, including the empty one.
+//@ func UnmarshalJSON
+//@   props C10
+//@   safety
+//@   requires v != nil
+//@ func (Set) UnmarshalJSON
+//@   loop 1
+//@     invariant len(vals) == len(res) && !isnil(vals)
+// parseUint is always called with a constant, positive field width.
+//@ func parseUint
+//@   requires chars >= 0
+// floating point is outside the logic: not swept
+//@ func (Decimal) Float
+//@   nosafety
+//@ func NewDecimalFromFloat
+//@   nosafety
